@@ -99,6 +99,87 @@ overlap_sound!(c08_t_sound_4d_2x2x2x2, 4, [2, 2, 2, 2]);
 overlap_sound!(c08_t_sound_4d_2x3x1x2, 4, [2, 3, 1, 2]);
 overlap_sound!(c08_t_sound_4d_3x2x3x2, 4, [3, 2, 3, 2]);
 
+/// Soundness for *huge* concrete shapes (element counts around and beyond
+/// 2^64, where the size products inside the check themselves overflow): the
+/// indices compared are the corner indices {0, 1, size-2, size-1} of every
+/// axis (symbolic choice per axis), so that every multiplication is by a
+/// constant. Accepted => corner offsets are pairwise distinct (exact u128
+/// arithmetic) and the largest offset fits in usize.
+#[inline(always)]
+fn corner(choice: u8, size: usize) -> usize {
+    match choice {
+        0 => 0,
+        1 => {
+            if size > 1 {
+                1
+            } else {
+                0
+            }
+        }
+        2 => size.saturating_sub(2),
+        _ => size - 1,
+    }
+}
+#[inline(always)]
+fn corner_mul(choice: u8, size: usize, stride: usize) -> u128 {
+    // `corner(choice, size)` is a constant per match arm.
+    let s = stride as u128;
+    match choice {
+        0 => 0,
+        1 => {
+            if size > 1 {
+                s
+            } else {
+                0
+            }
+        }
+        2 => (size.saturating_sub(2) as u128) * s,
+        _ => ((size - 1) as u128) * s,
+    }
+}
+macro_rules! overlap_sound_huge {
+    ($name:ident, $n:literal, [$($s:expr),*]) => {
+        #[kani::proof]
+        #[kani::unwind(10)]
+        fn $name() {
+            let shape: [usize; $n] = [$($s),*];
+            let strides: [usize; $n] = kani::any();
+            let accepted =
+                NdLayout::<$n>::from_shape_and_strides(shape, strides, OverlapPolicy::DisallowOverlap)
+                    .is_ok();
+            kani::cover!(accepted, "accepting strides exist");
+            kani::cover!(!accepted, "rejecting strides exist");
+            if accepted {
+                let ci: [u8; $n] = kani::any();
+                let cj: [u8; $n] = kani::any();
+                let mut differ = false;
+                let mut oi: u128 = 0;
+                let mut oj: u128 = 0;
+                let mut max_off: u128 = 0;
+                let mut k = 0;
+                while k < $n {
+                    kani::assume(ci[k] < 4 && cj[k] < 4);
+                    differ |= corner(ci[k], shape[k]) != corner(cj[k], shape[k]);
+                    oi += corner_mul(ci[k], shape[k], strides[k]);
+                    oj += corner_mul(cj[k], shape[k], strides[k]);
+                    max_off += corner_mul(3, shape[k], strides[k]);
+                    k += 1;
+                }
+                kani::assume(differ);
+                assert!(oi != oj, "accepted layout maps two indices to one offset");
+                assert!(max_off <= usize::MAX as u128, "accepted layout has an offset that wraps");
+            }
+        }
+    };
+}
+overlap_sound_huge!(c08_q_sound_huge_2x2p63x2, 3, [2, 1 << 63, 2]);
+overlap_sound_huge!(c08_q_sound_huge_2p32x2p32, 2, [1 << 32, 1 << 32]);
+overlap_sound_huge!(c08_q_sound_huge_3x2p62, 2, [3, 1 << 62]);
+overlap_sound_huge!(c08_q_sound_huge_max, 1, [usize::MAX]);
+overlap_sound_huge!(c08_t_sound_huge_2p63x2, 2, [1 << 63, 2]);
+overlap_sound_huge!(c08_t_sound_huge_2p21x2p21x2p22, 3, [1 << 21, 1 << 21, 1 << 22]);
+overlap_sound_huge!(c08_t_sound_huge_2x1x2p63, 3, [2, 1, 1 << 63]);
+
 /// Empty shapes: never reported as overlapping (there are no valid indices),
 /// and the check must not panic whatever the strides.
 macro_rules! overlap_empty {
